@@ -268,4 +268,28 @@ CHECKS = {
                    "Phase unwrapping is off here (C12 covers it).",
         assumptions=["packets of one group arrive in sequence order", "equal frames per packet in all groups", "sequence numbers do not wrap around 2^32 within a case"],
     ),
+    "C04": dict(
+        pkg=".", hdir="root", test="TestVerif_C04", wal=True,
+        quick=dict(shards=48, checks=40, timeout=900),
+        thorough=dict(shards=64, checks=600, timeout=3400),
+        technique="property-based testing (rapid) with a scripted in-memory card (lancero.Lanceroer) as the clock; reference demultiplexer/mixer/external-trigger scanner as oracle",
+        rule="rapid-generated geometries (1-8 columns x 2-16 rows, NSAMP 1-16), arbitrary frame contents obeying the frame-bit convention (incl. "
+             "full-scale errors and feedback), a stream starting mid-frame, chunk schedules of 3-15 driver reads (frame-aligned, tiny, around the "
+             "3-frame minimum, arbitrary byte counts), 0-4 external-trigger pulses of 1 row-time to 3 frames, and either 1-3 mix requests "
+             "(fractions 0, +-small, +-huge; served while the card is held empty so the block boundary is known) or one gap of lost words "
+             "(sub-frame, multi-frame+fraction, whole frames, arbitrary). Real Configure/Sample/PrepareChannels/PrepareRun/StartRun/getNextBlock "
+             "with the real 50 ms reader tick. non-trivial = chunking not frame aligned AND (multi-column external trigger OR mix change OR detected gap); "
+             "distinct = FNV-64 of the case",
+        level_text="Without loss: every emitted frame j must be input frame j+1 (the start-up discards up to the first frame boundary): error "
+                   "channels 2(c*rows+r) bit-exact, feedback channels 2(c*rows+r)+1 = previous frame's feedback with the two flag bits cleared plus "
+                   "mix x signed error of the same index (|diff| <= 0.5, saturating at 0/65535); all channels equal length per block, contiguous "
+                   "frame numbers, no drop reported, at most 2 whole frames left unread at the end, release accounting never exceeds what was "
+                   "delivered; external-trigger counts = exactly one frame*rows+row per rising edge of the per-row flag. With a gap: blocks "
+                   "before the loss exact, the block reporting the drop and all later ones are consecutive whole frames sent after the loss, "
+                   "a re-aligned stream without a reported drop is a violation, frame numbers never go backwards.",
+        level_note="One card (the reader panics by design on several). A gap of whole frames is undetectable by design and only checked for "
+                   "the frames before it. The first sample of every feedback channel (and the first after a re-alignment) is unconstrained. "
+                   "Dropped-frame counts are the code's time-based estimate and only required to be positive.",
+        assumptions=["4-byte word granularity of the stream and of gaps (DMA words)", "card device number 0", "the first 60 reads deliver at least 4 frames (StartRun gives up after 100 empty reads)"],
+    ),
 }
